@@ -59,10 +59,10 @@ def cases(tier: str, seed: int) -> list[dict]:
                         'cell': {'mode': 'race', 'direct': 'fast', 'indirect': 'pierce-fast', 'cancel': None, 'typ': typ,
                                  'same_instant': True, 'rendezvous': 'pierce-waits-for-direct-connect', 'd_yields': 0,
                                  'i_yields': j, 'ports': 'clear', 'prefer_obf': False}})
-    n_rand = 1600 if tier == 'quick' else 9000
+    n_rand = 1600 if tier == 'quick' else 150000
     for _ in range(n_rand):
         out.append({'kind': 'request', 'seed': seed, 'n': len(out), 'cell': None})
-    n_cb = 320 if tier == 'quick' else 1600
+    n_cb = 320 if tier == 'quick' else 25000
     for _ in range(n_cb):
         out.append({'kind': 'connect-back', 'seed': seed, 'n': len(out)})
     return out
